@@ -1,5 +1,6 @@
 //! TransientSource driven through a real event loop with instrumented children (C18).
-//! Input: one case per line: `from|default op op ...` with ops evC evR evD evM rm rp reg rereg unreg.
+//! Input: one case per line: `from|default op op ...` with ops evC evR evD evM rm rp reg rereg unreg and e<A>m / e<A>p (child's event
+//! answered A in C R D M, then remove() / replace(new) by the parent inside the same process_events, which returns Reregister).
 //! Output: one line per case with the observations of the children and of the wrapper.
 use calloop::generic::Generic;
 use calloop::transient::TransientSource;
@@ -103,7 +104,13 @@ impl EventSource for IChild {
 struct Obs {
     inner: TransientSource<IChild>,
     log: Log,
+    // what the parent does right after its child's event, inside the same process_events: 0 nothing, 1 remove(), 2 replace(new)
+    then: Rc<Cell<u8>>,
+    answer: Rc<Cell<u8>>,
+    fds: Fds,
+    next_id: Rc<Cell<u64>>,
 }
+type Fds = Rc<RefCell<Vec<(u64, Rc<OwnedFd>)>>>;
 impl EventSource for Obs {
     type Event = u64;
     type Metadata = ();
@@ -126,6 +133,22 @@ impl EventSource for Obs {
             };
             if forwarded || code != 0 {
                 self.log.borrow_mut().push(format!("T{}", code));
+            }
+        }
+        if forwarded && r.is_ok() {
+            match self.then.get() {
+                1 => {
+                    self.inner.remove();
+                    return Ok(PostAction::Reregister);
+                }
+                2 => {
+                    let id = self.next_id.get();
+                    self.next_id.set(id + 1);
+                    let c = new_child(id, &self.answer, &self.log, &mut self.fds.borrow_mut());
+                    self.inner.replace(c);
+                    return Ok(PostAction::Reregister);
+                }
+                _ => {}
             }
         }
         r
@@ -169,29 +192,47 @@ fn run_case(line: &str) -> String {
     }
     let log: Log = Rc::new(RefCell::new(vec![]));
     let answer = Rc::new(Cell::new(0u8));
-    let mut fds: Vec<(u64, Rc<OwnedFd>)> = vec![];
-    let mut next_id = 1u64;
+    let fds: Fds = Rc::new(RefCell::new(vec![]));
+    let next_id = Rc::new(Cell::new(1u64));
+    let then = Rc::new(Cell::new(0u8));
     let mut event_loop: EventLoop<'static, ()> = EventLoop::try_new().expect("loop");
     let handle = event_loop.handle();
     let inner: TransientSource<IChild> = if ws[0] == "from" {
-        new_child(0, &answer, &log, &mut fds).into()
+        new_child(0, &answer, &log, &mut fds.borrow_mut()).into()
     } else {
         TransientSource::default()
     };
-    let disp = Dispatcher::new(Obs { inner, log: log.clone() }, |_, _, _: &mut ()| {});
+    let disp = Dispatcher::new(
+        Obs {
+            inner,
+            log: log.clone(),
+            then: then.clone(),
+            answer: answer.clone(),
+            fds: fds.clone(),
+            next_id: next_id.clone(),
+        },
+        |_, _, _: &mut ()| {},
+    );
     let mut token: Option<RegistrationToken> = None;
     for op in &ws[1..] {
         match *op {
-            "evC" | "evR" | "evD" | "evM" => {
-                answer.set(match *op {
-                    "evC" => 0,
-                    "evR" => 1,
-                    "evD" => 2,
+            "evC" | "evR" | "evD" | "evM" | "eCm" | "eRm" | "eDm" | "eMm" | "eCp" | "eRp" | "eDp" | "eMp" => {
+                answer.set(match op.as_bytes()[if op.len() == 3 && !op.starts_with("ev") { 1 } else { 2 }] {
+                    b'C' => 0,
+                    b'R' => 1,
+                    b'D' => 2,
                     _ => 3,
+                });
+                then.set(if op.starts_with("ev") {
+                    0
+                } else if op.ends_with('m') {
+                    1
+                } else {
+                    2
                 });
                 let cur = disp.as_source_mut().inner.map(|c| c.id);
                 if let Some(id) = cur {
-                    if let Some((_, fd)) = fds.iter().find(|(i, _)| *i == id) {
+                    if let Some((_, fd)) = fds.borrow().iter().find(|(i, _)| *i == id) {
                         let _ = rustix::io::write(&**fd, &1u64.to_ne_bytes());
                     }
                 }
@@ -199,15 +240,17 @@ fn run_case(line: &str) -> String {
                 let r = event_loop.dispatch(Some(Duration::ZERO), &mut ());
                 let _ = r;
                 let _ = before;
-                for (_, fd) in fds.iter() {
+                then.set(0);
+                for (_, fd) in fds.borrow().iter() {
                     let mut buf = [0u8; 8];
                     let _ = rustix::io::read(&**fd, &mut buf);
                 }
             }
             "rm" => disp.as_source_mut().inner.remove(),
             "rp" => {
-                let c = new_child(next_id, &answer, &log, &mut fds);
-                next_id += 1;
+                let id = next_id.get();
+                next_id.set(id + 1);
+                let c = new_child(id, &answer, &log, &mut fds.borrow_mut());
                 disp.as_source_mut().inner.replace(c);
             }
             "reg" => match token {
